@@ -106,7 +106,8 @@ func (c *Cluster) digest(withState bool) uint64 {
 		if hgr.AnchorBlock != nil {
 			fmt.Fprintf(h, "anchor:%d|", *hgr.AnchorBlock)
 		}
-		fmt.Fprintf(h, "ple:%d|app:%x/%d|", hgr.PendingLoadedEvents, n.App.State, len(n.App.Commits))
+		// (the insertion counter is stored with every event and keys the database's topological listing)
+		fmt.Fprintf(h, "ple:%d|topo:%d|app:%x/%d|", hgr.PendingLoadedEvents, hgr.VTopologicalIndex(), n.App.State, len(n.App.Commits))
 		last := n.Store.LastBlockIndex()
 		for i := 0; i <= last; i++ {
 			b, err := n.Store.GetBlock(i)
